@@ -1,0 +1,38 @@
+//go:build verif
+
+package stream
+
+// Instrumentation for the verification harness in /verif (build tag "verif"); never compiled into a normal build.
+
+// VerifSignals is a snapshot of the end-of-session signalling of a stream: what listenEnd, close() and wait() have
+// posted and taken so far.
+type VerifSignals struct {
+	Active    int32 // activeStreams
+	Ending    bool  // serial closing under way (servers older than 5.5.0); false when the mode is off
+	Serial    bool  // the serial closing mode is on
+	Queue     int   // tokens in the pacing queue of the serial close
+	FinEnd    bool  // streamFinishedWithEndEventCh
+	FinClose  bool  // streamFinishedWithCloseCh
+	SigEnd    int   // tokens waiting in finishStreamWithEndEventCh
+	SigClose  int   // tokens waiting in finishStreamWithCloseCh
+	Balancing bool
+}
+
+// VerifSignalState reads the signalling state of a stream built by NewStream.
+func VerifSignalState(st Stream) VerifSignals {
+	s := st.(*stream)
+	v := VerifSignals{
+		Active:    s.activeStreams.Load(),
+		FinEnd:    s.streamFinishedWithEndEventCh,
+		FinClose:  s.streamFinishedWithCloseCh,
+		SigEnd:    len(s.finishStreamWithEndEventCh),
+		SigClose:  len(s.finishStreamWithCloseCh),
+		Balancing: s.balancing,
+	}
+	if s.streamEndNotSupportedData != nil {
+		v.Serial = true
+		v.Ending = s.streamEndNotSupportedData.ending
+		v.Queue = len(s.streamEndNotSupportedData.queue)
+	}
+	return v
+}
